@@ -3,7 +3,7 @@ from __future__ import annotations
 
 ID = "C36"
 BOUNDS = {
-    "quick": "(a) every history of 4 operations out of {start_task(t), remove_task(t) for two Task objects (one restarting after reconnection, one not), connection state -> CONNECTED / CONNECTING / DISCONNECTED (through the real ConnectionManager), registry.stop()} on the real TaskRegistry/Task/ConnectionManager code with asyncio.create_task replaced by inert handles: after every operation the number of live (created and not cancelled) handles per task equals the reference model; (b) the task body Task._start_internal stepped (symaio) for every option combination wait_before_start {0, 2}, wait_for_connection, restart_after_reconnect, repeat_after {None, 5}, connected or not, sync or async target, two iterations",
+    "quick": "(a) every history of 4 operations out of {start_task(t), remove_task(t) for two Task objects (one restarting after reconnection, one not), connection state -> CONNECTED / CONNECTING / DISCONNECTED (through the real ConnectionManager), registry.stop()} on the real TaskRegistry/Task/ConnectionManager code with asyncio.create_task replaced by inert handles: after every operation the number of live (created and not cancelled) handles per task equals the reference model; (b) the task body Task._start_internal stepped (symaio) for every option combination wait_before_start {0, 2}, wait_for_connection, restart_after_reconnect, repeat_after {None, 5, 0}, connected or not, sync or async target, two iterations",
     "thorough": "as quick with histories of 5 operations",
 }
 OUTSIDE = "the event loop: delivery of cancellation into a running coroutine, a task finishing on its own (handles never complete, so 'replaces the running instance' is checked as cancel + create), TaskRegistry.background and block_till_done; starting a restart-after-reconnect task explicitly while disconnected (the statement's 'not running while disconnected' is checked for connection-loss events)"
@@ -128,7 +128,7 @@ def run_job(job, rep):
         wait = pick("wait", [0, 2])
         wfc = pick("wfc", [False, True])
         rar = pick("rar", [False, True])
-        rep_after = pick("rep", [None, 5])
+        rep_after = pick("rep", [None, 5, 0])
         connected = pick("conn", [False, True])
         is_async = pick("async", [False, True])
         calls = []
@@ -181,7 +181,7 @@ def run_job(job, rep):
         if gave_up:
             want, end = one, "returned"
         elif o["rep"] is None:
-            want, end = one, "returned"
+            want, end = one, "returned"          # repeat_after 0 is a valid interval ("again at once"), only None ends the loop
         else:
             want, end = None, "stopped"
         if want is None:
